@@ -3,7 +3,7 @@
    backend grammar [b] that satisfy the boolean side conditions [wf_prep p] and [compat p b]; the check
    evaluates these side conditions on the tables regenerated from the current source on every run
    (build/C06/C06_obl.v on C06_tables.v: wf_<dialect>, compat_<dialect>, reserved_complete_sqlite, and the instances
-   quote_lexes_back_<dialect>, unformat_format_<dialect>[_guarded/_refuted], quote_nl_refuted_<dialect>). *)
+   quote_lexes_back_<dialect>, unformat_format_<dialect>[_guarded/_refuted], quote_nl_<dialect>). *)
 From Coq Require Import List NArith Bool.
 Import ListNotations.
 From SAV.sql Require Import Ident IdentProofs.
@@ -11,12 +11,12 @@ Open Scope N_scope.
 
 (* What quote() emits for a non-empty name is read back by the backend (after the DBAPI driver's "%%"
    collapsing, [lex_sent]) as exactly one identifier: the name itself when it was delimited, the backend's folding
-   of it when it was left bare.  Guard: the name is not <legal characters>"\n" left bare (defect below). *)
-Theorem c06_quote_lexes_back_guarded : forall p b, wf_prep p = true -> compat p b = true ->
-  forall name, name <> [] -> bare_nl p name = false ->
+   of it when it was left bare.  (Unguarded since fix 67008c4: LEGAL_CHARACTERS is anchored with \Z.) *)
+Theorem c06_quote_lexes_back : forall p b, wf_prep p = true -> compat p b = true ->
+  forall name, name <> [] ->
   exists text, quote p name = Ok text /\ lex_sent b text = Some (stored p b name).
-Proof. exact quote_lexes_back_guarded. Qed.
-Print Assumptions c06_quote_lexes_back_guarded.
+Proof. exact quote_lexes_back. Qed.
+Print Assumptions c06_quote_lexes_back.
 
 (* ... and whenever quoting is skipped the folding of the backend does not change the name
    (backends that fold to lower case or not at all: all modelled ones but Oracle) *)
@@ -32,19 +32,11 @@ Theorem c06_stored_upper_is_name_ignoring_case : forall p b, wf_prep p = true ->
 Proof. exact bare_fold_upper_lower. Qed.
 Print Assumptions c06_stored_upper_is_name_ignoring_case.
 
-(* DEFECT (all dialects): legal_characters is ^[A-Z0-9_$]+$ and "$" also matches before a final newline,
-   so "a\n" is emitted bare and the backend reads the identifier a *)
-Theorem c06_quote_lexes_back_refuted : exists p b name text,
-  wf_prep p = true /\ compat p b = true /\ name <> [] /\
-  quote p name = Ok text /\ lex_sent b text = Some [97] /\ name = [97; 10].
-Proof. exists sample_prep, sample_backend, [97; 10], [97; 10]. vm_compute. repeat split; discriminate. Qed.
-Print Assumptions c06_quote_lexes_back_refuted.
-
-(* ... and the guard is exact: EVERY name of the excluded region is emitted bare and is not read back *)
-Theorem c06_quote_lexes_back_refuted_all : forall p b, wf_prep p = true -> compat p b = true ->
-  forall name, bare_nl p name = true -> quote p name = Ok name /\ lex_sent b name <> Some name.
-Proof. exact bare_nl_never_roundtrips. Qed.
-Print Assumptions c06_quote_lexes_back_refuted_all.
+(* formerly c06_quote_lexes_back_refuted (a name of legal characters plus one final newline was emitted
+   bare: "$" matched before the newline); repaired by 67008c4, now a positive example *)
+Example c06_ex_final_newline_is_quoted :
+  quote sample_prep [97; 10] = Ok [34; 97; 10; 34] /\ lex_sent sample_backend [34; 97; 10; 34] = Some [97; 10].
+Proof. vm_compute. split; reflexivity. Qed.
 
 (* forced quoting (quoted_name(..., quote=True)) always reads back as the name, the empty name included *)
 Theorem c06_quote_identifier_lexes_back : forall p b, wf_prep p = true -> compat p b = true ->
@@ -119,13 +111,13 @@ Theorem c06_prepared_index_name_components : forall p s i text, s <> [] ->
 Proof. exact prepared_index_name_components. Qed.
 Print Assumptions c06_prepared_index_name_components.
 
-(* ... so the backend reads both components back as the stored names (guard: the newline defect) ... *)
-Theorem c06_prepared_index_name_lexes_back_guarded : forall p b, wf_prep p = true -> compat p b = true ->
-  forall s i, s <> [] -> i <> [] -> bare_nl p s = false -> bare_nl p i = false ->
+(* ... so the backend reads both components back as the stored names ... *)
+Theorem c06_prepared_index_name_lexes_back : forall p b, wf_prep p = true -> compat p b = true ->
+  forall s i, s <> [] -> i <> [] ->
   exists qs qi, prepared_index_name p true (Some s) i = Ok (qs ++ dot :: qi) /\
                 lex_sent b qs = Some (stored p b s) /\ lex_sent b qi = Some (stored p b i).
-Proof. exact prepared_index_name_lexes_back_guarded. Qed.
-Print Assumptions c06_prepared_index_name_lexes_back_guarded.
+Proof. exact prepared_index_name_lexes_back. Qed.
+Print Assumptions c06_prepared_index_name_lexes_back.
 
 (* ... and unformat_identifiers splits it into schema and index name (guard: the percent defect) *)
 Theorem c06_prepared_index_name_unformat_guarded : forall p, wf_prep p = true -> forall s i text,
@@ -166,7 +158,6 @@ Example c06_ex_paths :
   quote sample_prep [115; 101; 108; 101; 99; 116] = Ok [34; 115; 101; 108; 101; 99; 116; 34] /\  (* select *)
   quote sample_prep [49; 97] = Ok [34; 49; 97; 34] /\                           (* 1a: illegal initial *)
   quote sample_prep [97; 34; 37] = Ok [34; 97; 34; 34; 37; 37; 34] /\           (* a, double quote, percent: both escapes *)
-  bare_nl sample_prep [97; 98] = false /\ bare_nl sample_prep [97; 10] = true /\ bare_nl sample_prep [65; 10] = false /\
   lex_sent sample_backend [34; 97; 34; 34; 37; 37; 34] = Some [97; 34; 37] /\
   lex_sent sample_backend [34; 97; 37; 98; 34] = None /\                       (* a lone percent sign: rejected by the driver *)
   lex_ident sample_backend [115; 101; 108; 101; 99; 116] = None /\
